@@ -113,6 +113,9 @@ def parse_mir(text):
         m = re.match(r"^const ([\w:]+): (\w+) = const (\S+?);", ln)
         if m:
             consts[m.group(1).split("::")[-1]] = (m.group(3), m.group(2))
+        mc = re.match(r"^const ([\w:<> ]+?): (\w+) = \{$", ln)
+        if mc:
+            ln = f"fn const:{mc.group(1).split('::')[-1]}() -> {mc.group(2)} {{"
         m = re.match(r"^fn (.+?)\((.*)\) -> (.+) \{$", ln)
         if m:
             name, argtxt, ret = m.group(1), m.group(2), m.group(3)
@@ -286,9 +289,11 @@ class Explorer:
             c3 = [f for f in cands if f.name.endswith(c)]
             if len(c3) == 1:
                 return c3[0]
-            return None
+            return cands[0] if len(cands) == 1 else None   # a name that is unique in the crate
         c1 = [f for f in cands if "::" not in f.name]
-        return c1[0] if len(c1) == 1 else None
+        if len(c1) == 1:
+            return c1[0]
+        return cands[0] if len(cands) == 1 else None   # a name that is unique in the crate
 
     # ---- places ----
     def parse_place(self, txt):
@@ -469,6 +474,21 @@ class Explorer:
         if name in self.consts:
             v, ty = self.consts[name]
             return self.const(v)
+        if ("const:" + name) in self.funcs and name not in getattr(self, "_const_busy", set()):
+            # a const item with a body (e.g. `const MAX: u32 = 60 * 60;`): evaluate the body once
+            cache = self.__dict__.setdefault("_const_cache", {})
+            if name not in cache:
+                self.__dict__.setdefault("_const_busy", set()).add(name)
+                sub = Explorer(self.funcs, self.consts)
+                rets = [p for p in sub.explore("const:" + name) if p.outcome == "return"]
+                self._const_busy.discard(name)
+                v = rets[0].ret if len(rets) == 1 else None
+                if isinstance(v, BV):
+                    sv = z3.simplify(v.e)
+                    v = BV(sv, v.width, v.signed) if z3.is_bv_value(sv) else None
+                cache[name] = v
+            if cache[name] is not None:
+                return cache[name]
         if t == "()":
             return Tup([])
         return Opaque("const " + t[:40])
@@ -852,7 +872,10 @@ class Explorer:
                     return
                 # models
                 if short in ("min", "max") and ("cmp::" in cname or re.search(r"<[ui](8|16|32|64|128|size) as Ord>::", cname)) and len(args) == 2:
-                    a, b = self.coerce_bv(args[0]), self.coerce_bv(args[1])
+                    a = self.coerce_bv(args[0], args[1].width if isinstance(args[1], BV) else None)
+                    b = self.coerce_bv(args[1], a.width)
+                    if a.width != b.width:
+                        b = BV(z3.BitVec(f"HV_hv!{next(_fresh)}", a.width), a.width, a.signed, True)
                     lt = z3.ULT(a.e, b.e) if not a.signed else a.e < b.e
                     e = z3.If(lt, a.e, b.e) if short == "min" else z3.If(lt, b.e, a.e)
                     rv = BV(e, a.width, a.signed, a.taint or b.taint)
@@ -881,6 +904,9 @@ class Explorer:
                         rv = fresh_of_type(dty or "u64", "from", True)
                 else:
                     target = self.resolve(cname) if (cname in self.inline or short in self.inline) else None
+                    if target is None and self.inline_nested and "::" not in cname and cname in self.funcs \
+                            and len(self.funcs[cname].blocks) <= 10 and cname != "current_time_millis":
+                        target = self.funcs[cname]   # a small helper printed under its bare name (nested fn / free fn)
                     if target is None and self.inline_nested:
                         t2 = self.resolve(cname)
                         root = frames[0].func.name.split("::{closure")[0]
